@@ -36,14 +36,24 @@ Lemma wswap_invol w : wswap (wswap w) = w.
 Proof. destruct w; reflexivity. Qed.
 
 (** One step, either handle. *)
+Lemma mem_ok_swap w o : mem_ok w o -> mem_ok (wswap w) o.
+Proof. destruct o; cbn; auto. Qed.
+
 Theorem list_step_refines w hd o : winv w -> step_ok cmp pred w hd o.
 Proof.
-  intros Hw. destruct hd; [apply step_refines_HA; exact Hw|].
-  destruct (step_refines_HA cmp pred (wswap w) o (winv_swap _ Hw)) as (out & w1 & fl & E & Hw1 & Hs & Hf & Hfl).
-  exists out, (wswap w1), fl. rewrite step_swap, E. cbn [bind]. split; [reflexivity|]. split; [apply winv_swap; exact Hw1|].
+  intros Hw Hmo. destruct hd; [apply step_refines_HA; assumption|].
+  destruct (step_refines_HA cmp pred (wswap w) o (winv_swap _ Hw) (mem_ok_swap _ _ Hmo)) as (out & w1 & fl & E & (Hw1 & Hm1 & Hm2) & Hs & Hf & Hfl).
+  exists out, (wswap w1), fl. rewrite step_swap, E. cbn [bind]. split; [reflexivity|].
+  split; [split; [apply winv_swap; exact Hw1|split; assumption]|].
   split; [|split; [exact Hf|exact Hfl]].
   rewrite spec_swap, <- wabs_swap, <- Hs. reflexivity.
 Qed.
+
+(** Does a history use a move operation? Only then the two lists must share an allocator family. *)
+Definition is_splice (o : lop) : bool := match o with OSplice | OSpliceAt _ => true | _ => false end.
+Definition has_splice (ops : list (hnd * lop)) : bool := existsb (fun p => is_splice (snd p)) ops.
+Lemma mem_ok_of o w : (is_splice o = true -> l_mem (wa w) = l_mem (wb w)) -> mem_ok w o.
+Proof. destruct o; cbn; auto. Qed.
 
 (** A refusal under an exhausted plan can only be a request above the limit. *)
 Fixpoint fls_ok (lim : N) (p : list N * list N) (ops : list (hnd * lop)) (fls : list bool) : Prop :=
@@ -54,15 +64,18 @@ Fixpoint fls_ok (lim : N) (p : list N * list N) (ops : list (hnd * lop)) (fls : 
       (fl = true -> lim < req_bytes (psel p hd) o) /\ fls_ok lim (snd (spec_step cmp pred p hd o fl)) r (tl fls)
   end.
 
-Theorem list_run_refines ops : forall w, winv w ->
+Theorem list_run_refines ops : forall w, winv w -> (has_splice ops = true -> l_mem (wa w) = l_mem (wb w)) ->
   exists outs w' fls, cl_run cmp pred w ops = Ok (outs, w') /\ winv w' /\ length fls = length ops /\
     (outs, wabs w') = spec_run cmp pred (wabs w) ops fls /\ aframe (wal w) (wal w') /\
     (plan (wal w) = [] -> fls_ok (limit (wal w)) (wabs w) ops fls).
 Proof.
-  induction ops as [|[hd o] r IH]; intros w Hw.
+  induction ops as [|[hd o] r IH]; intros w Hw Hsp.
   - exists [], w, []. cbn. auto 10 using aframe_refl.
-  - destruct (list_step_refines w hd o Hw) as (out & w1 & fl & E & Hw1 & Hs & Hf & Hfl).
+  - cbn [has_splice existsb snd] in Hsp.
+    destruct (list_step_refines w hd o Hw) as (out & w1 & fl & E & (Hw1 & Hm1 & Hm2) & Hs & Hf & Hfl).
+    { apply mem_ok_of. intros Ho. apply Hsp. rewrite Ho. reflexivity. }
     destruct (IH w1 Hw1) as (outs & w2 & fls & E2 & Hw2 & Hlen & Hs2 & Hf2 & Hfl2).
+    { intros Hr. rewrite Hm1, Hm2. apply Hsp. fold (has_splice r). rewrite Hr. apply orb_true_r. }
     exists (out :: outs), w2, (fl :: fls). cbn [cl_run]. rewrite E. cbn [bind]. rewrite E2. cbn [bind].
     split; [reflexivity|]. split; [exact Hw2|]. split; [cbn; lia|]. split; [|split; [eapply aframe_trans; eassumption|]].
     + cbn [spec_run tl]. rewrite <- Hs, <- Hs2. reflexivity.
@@ -72,38 +85,42 @@ Proof.
 Qed.
 
 (** Two fresh lists from the constructor. *)
-Lemma new_winv mem a0 sa a1 sb a2 :
-  lok a0 -> live a0 = [] -> cl_new mem a0 = (CC_OK, Some sa, a1) -> cl_new mem a1 = (CC_OK, Some sb, a2) ->
-  winv {| wa := sa; wb := sb; wal := a2 |} /\ wabs {| wa := sa; wb := sb; wal := a2 |} = ([], []) /\ aframe a0 a2.
+Lemma new_winv mema memb a0 sa a1 sb a2 :
+  lok a0 -> live a0 = [] -> cl_new mema a0 = (CC_OK, Some sa, a1) -> cl_new memb a1 = (CC_OK, Some sb, a2) ->
+  winv {| wa := sa; wb := sb; wal := a2 |} /\ wabs {| wa := sa; wb := sb; wal := a2 |} = ([], []) /\ aframe a0 a2 /\
+  l_mem sa = mema /\ l_mem sb = memb.
 Proof.
   intros Hk Hl0 E1 E2. unfold cl_new in *.
-  destruct (alloc mem HDR_BYTES a0) as [[h1|] a1'] eqn:Ea1; [|discriminate]. inversion E1; subst; clear E1.
-  destruct (alloc mem HDR_BYTES a1) as [[h2|] a2'] eqn:Ea2; [|discriminate]. inversion E2; subst; clear E2.
+  destruct (alloc mema HDR_BYTES a0) as [[h1|] a1'] eqn:Ea1; [|discriminate]. inversion E1; subst; clear E1.
+  destruct (alloc memb HDR_BYTES a1) as [[h2|] a2'] eqn:Ea2; [|discriminate]. inversion E2; subst; clear E2.
   destruct (alloc_some _ _ _ _ _ Ea1 Hk) as (_ & Hl1 & Hk1 & Hf1 & Hh1 & _).
   destruct (alloc_some _ _ _ _ _ Ea2 Hk1) as (_ & Hl2 & Hk2 & Hf2 & Hh2 & _).
-  assert (Rn : forall h, h <> 0 -> lrep {| l_size := 0; l_head := 0; l_tail := 0; l_heap := []; l_hdr := h; l_mem := mem |} []).
-  { intros h Hh. constructor; cbn; auto; try constructor; try (intros y Hy; congruence). }
-  split; [|split; [|eapply aframe_trans; eassumption]].
-  - constructor; cbn [wa wb wal l_mem]; [assumption|reflexivity|]. exists [], []. split; [apply Rn; assumption|].
+  assert (Rn : forall mem h, h <> 0 -> lrep {| l_size := 0; l_head := 0; l_tail := 0; l_heap := []; l_hdr := h; l_mem := mem |} []).
+  { intros mem h Hh. constructor; cbn; auto; try constructor; try (intros y Hy; congruence). }
+  split; [|split; [|split; [eapply aframe_trans; eassumption|split; reflexivity]]].
+  - constructor; cbn [wa wb wal l_mem]; [assumption|]. exists [], []. split; [apply Rn; assumption|].
     split; [apply Rn; assumption|]. rewrite Hl2, Hl1, Hl0. unfold blocks, hblk. cbn. apply perm_swap.
   - unfold wabs, cl_abs, cl_chain. reflexivity.
 Qed.
 
-Theorem list_new_run_refines mem a0 sa a1 sb a2 ops :
-  lok a0 -> live a0 = [] -> cl_new mem a0 = (CC_OK, Some sa, a1) -> cl_new mem a1 = (CC_OK, Some sb, a2) ->
+(** The two lists may be created with different allocator families unless the history moves nodes between them. *)
+Theorem list_new_run_refines mema memb a0 sa a1 sb a2 ops :
+  lok a0 -> live a0 = [] -> cl_new mema a0 = (CC_OK, Some sa, a1) -> cl_new memb a1 = (CC_OK, Some sb, a2) ->
+  (has_splice ops = true -> mema = memb) ->
   exists outs w' fls, cl_run cmp pred {| wa := sa; wb := sb; wal := a2 |} ops = Ok (outs, w') /\ winv w' /\
     length fls = length ops /\ (outs, wabs w') = spec_run cmp pred ([], []) ops fls /\
     (plan a0 = [] -> fls_ok (limit a0) ([], []) ops fls).
 Proof.
-  intros Hk Hl0 E1 E2. destruct (new_winv mem a0 sa a1 sb a2 Hk Hl0 E1 E2) as (Hw & Ha & Hf).
+  intros Hk Hl0 E1 E2 Hsp. destruct (new_winv mema memb a0 sa a1 sb a2 Hk Hl0 E1 E2) as (Hw & Ha & Hf & Hma & Hmb).
   destruct (list_run_refines ops _ Hw) as (outs & w' & fls & E & Hw' & Hlen & Hs & _ & Hfl).
+  { cbn [wa wb]. intros H. rewrite Hma, Hmb. apply Hsp, H. }
   exists outs, w', fls. rewrite Ha in Hs, Hfl. cbn [wal] in Hfl. split; [exact E|]. split; [exact Hw'|]. split; [exact Hlen|].
   split; [exact Hs|]. intros Hp. rewrite <- (af_limit _ _ Hf). apply Hfl. apply (af_plan _ _ Hf Hp).
 Qed.
 
 (** Preservation alone. *)
-Theorem list_wf_preserved w hd o : winv w -> exists out w', cl_step cmp pred w hd o = Ok (out, w') /\ winv w'.
-Proof. intros Hw. destruct (list_step_refines w hd o Hw) as (out & w' & fl & E & Hw' & _). eauto. Qed.
+Theorem list_wf_preserved w hd o : winv w -> mem_ok w o -> exists out w', cl_step cmp pred w hd o = Ok (out, w') /\ winv w'.
+Proof. intros Hw Hmo. destruct (list_step_refines w hd o Hw Hmo) as (out & w' & fl & E & (Hw' & _) & _). eauto. Qed.
 End Run.
 
 (** What the invariant says about each of the two lists, spelled out. *)
@@ -116,7 +133,7 @@ Definition list_wf (s : clist) : Prop :=
 
 Theorem winv_list_wf w : winv w -> list_wf (wa w) /\ list_wf (wb w).
 Proof.
-  intros [_ _ (la & lb & R1 & R2 & _)].
+  intros [_ (la & lb & R1 & R2 & _)].
   assert (H : forall s l, lrep s l -> list_wf s).
   { intros s l R. exists l. split; [apply R|]. split; [apply R|]. split; [apply R|]. split; [apply R|]. split; [apply R|].
     split; [apply R|]. split; [|apply lrep_abs; exact R].
@@ -127,7 +144,7 @@ Qed.
 (** Backward traversal = mirror image of the forward traversal. *)
 Theorem list_mirror w : winv w -> cl_back (wa w) = rev (cl_abs (wa w)) /\ cl_back (wb w) = rev (cl_abs (wb w)).
 Proof.
-  intros [_ _ (la & lb & R1 & R2 & _)].
+  intros [_ (la & lb & R1 & R2 & _)].
   rewrite (lrep_back _ _ R1), (lrep_back _ _ R2), (lrep_abs _ _ R1), (lrep_abs _ _ R2). auto.
 Qed.
 
@@ -148,7 +165,7 @@ Qed.
 Lemma splice_src' l1 l2 st l1' l2' : cl_splice l1 l2 = Ok (st, l1', l2') -> l2' = l2 \/ l2' = emptied l2.
 Proof. apply splice_src. Qed.
 
-Theorem list_bulk w hd o : winv w ->
+Theorem list_bulk w hd o : winv w -> mem_ok w o ->
   exists out w' fl, cl_step cmp pred w hd o = Ok (out, w') /\ winv w' /\
     (out, wabs w') = spec_step cmp pred (wabs w) hd o fl /\
     match o with
@@ -159,7 +176,7 @@ Theorem list_bulk w hd o : winv w ->
     | _ => True
     end.
 Proof.
-  intros Hw. destruct (list_step_refines cmp pred w hd o Hw) as (out & w' & fl & E & Hw' & Hs & _).
+  intros Hw Hmo. destruct (list_step_refines cmp pred w hd o Hw Hmo) as (out & w' & fl & E & (Hw' & _) & Hs & _).
   exists out, w', fl. split; [exact E|]. split; [exact Hw'|]. split; [exact Hs|].
   destruct w as [sa sb a]. destruct o; try exact I; destruct hd; unfold cl_step in E; cbn [wget wother wset wset2 wa wb wal] in *.
   all: try (match type of E with (do _ <- ?x; _) = _ => destruct x as [[[st l'] a']|]; cbn [bind] in E; [|discriminate] end;
